@@ -718,7 +718,7 @@ func c09Stage(c0 *Ctx) {
 
 	n := 1500
 	if c.Thorough {
-		n *= 20
+		n *= 8
 	}
 	cases := make([]*c09sCase, n)
 	var reqs [][]string
@@ -852,7 +852,7 @@ func c09Stage(c0 *Ctx) {
 	}
 	nMut := 900
 	if c.Thorough {
-		nMut *= 20
+		nMut *= 8
 	}
 	for j := 0; j < nMut && len(pool) > 0; j++ {
 		t := pool[c.Rng.Intn(len(pool))]
